@@ -92,7 +92,7 @@ def predict(case):
             if len(chops) > 1:
                 explicit.add(("multi", b, a))
             for kw in chops:
-                if set(kw) == {"count"}:
+                if "count" in kw:
                     explicit.add(kw["count"])
                 else:
                     sized += 1
